@@ -518,8 +518,15 @@ Ltac vp_pair_side :=
         | solve [ intros E; inversion E; nra ] ].
 
 Ltac vp_atan2_trig :=
-  repeat first [ rewrite atan2_cos by vp_pair_side | rewrite atan2_sin by vp_pair_side ];
-  rewrite ?hyp_of_hyp.
+  lazymatch goal with
+  | |- context [atan2 _ _] =>
+      repeat first [ rewrite atan2_cos by vp_pair_side | rewrite atan2_sin by vp_pair_side ];
+      repeat match goal with
+      | |- context [sqrt (?z * ?z + sqrt (?x * ?x + ?y * ?y) * sqrt (?x * ?x + ?y * ?y))] =>
+          rewrite (hyp_of_hyp x y z)
+      end
+  | _ => idtac
+  end.
 
 Lemma pow2_mul (x : R) : x ^ 2 = x * x.
 Proof. ring. Qed.
@@ -550,5 +557,5 @@ Ltac vp_ecorr_vec H :=
   cbv beta iota zeta delta [ExpCoords.scal bvec convert_point convert_vector vecmat dotv mrow I3];
   vp_atan2_trig;
   rewrite ?pow2_mul;
-  vp_trig_args;
-  first [ ring | (field; vp_nz) | (unfold Rdiv; ring) ].
+  first [ ring | (unfold Rdiv; ring)
+        | (vp_trig_args; first [ ring | (unfold Rdiv; ring) | (field; vp_nz) ]) ].
